@@ -905,10 +905,18 @@ impl<I: Hash + Eq + Clone, A: Hash + Eq + Clone> Game<I, A> {
 
         // check we wrote to all locations
         for vals in split_by_mut(&mut dense, infos.iter().map(|info| info.num_actions())) {
-            let total: f64 = vals.iter().sum();
+            let mut total: f64 = vals.iter().sum();
             if total == 0.0 {
                 return Err(StratError::UninitializedInfoset);
             } else {
+                if !total.is_finite() {
+                    // the weights are finite but their sum overflowed: rescale first
+                    let max = vals.iter().copied().fold(0.0, f64::max);
+                    for val in vals.iter_mut() {
+                        *val /= max;
+                    }
+                    total = vals.iter().sum();
+                }
                 for val in vals.iter_mut() {
                     *val /= total;
                 }
@@ -1021,10 +1029,18 @@ impl<I: Eq, A: Eq> Game<I, A> {
 
         // check that we wrote to every location
         for vals in split_by_mut(&mut dense, infos.iter().map(|info| info.num_actions())) {
-            let total: f64 = vals.iter().sum();
+            let mut total: f64 = vals.iter().sum();
             if total == 0.0 {
                 return Err(StratError::UninitializedInfoset);
             } else {
+                if !total.is_finite() {
+                    // the weights are finite but their sum overflowed: rescale first
+                    let max = vals.iter().copied().fold(0.0, f64::max);
+                    for val in vals.iter_mut() {
+                        *val /= max;
+                    }
+                    total = vals.iter().sum();
+                }
                 for val in vals.iter_mut() {
                     *val /= total;
                 }
